@@ -26,6 +26,7 @@
 typedef struct InitialRateControlContext {
     EbFifo *motion_estimation_results_input_fifo_ptr;
     EbFifo *initialrate_control_results_output_fifo_ptr;
+    EbBool  quantizer_built;
 } InitialRateControlContext;
 
 /**************************************
@@ -356,7 +357,10 @@ void *initial_rate_control_kernel(void *input_ptr) {
             SequenceControlSet *scs_ptr = (SequenceControlSet *)
                                               pcs_ptr->scs_wrapper_ptr->object_ptr;
             EncodeContext *encode_context_ptr = (EncodeContext *)scs_ptr->encode_context_ptr;
-            if (pcs_ptr->picture_number == 0) {
+            // Build the quantizer tables with the first picture that gets here, not with picture 0: the TPL of a later
+            // base picture does not wait for picture 0 and would otherwise quantize with tables that are still all zero
+            if (!context_ptr->quantizer_built) {
+                context_ptr->quantizer_built = EB_TRUE;
                 Quants *const   quants_8bit = &scs_ptr->quants_8bit;
                 Dequants *const deq_8bit    = &scs_ptr->deq_8bit;
                 svt_av1_build_quantizer(
